@@ -23,7 +23,7 @@ import CifModel.Props.C12Lex
   `endLine cs (j+1)`, the line on which the next token ends (the end of the text if there is none): `repAt_line` of
   Lemmas/DefectChars, from `Reach.det` and the walk over accepted chunks (`reach_chunks`, `reach_end`).  (`RepAt` does not say
   whether the next token had already been scanned when the report was made, hence the two lines; they coincide when both tokens
-  end on the same line.)  Classes without an `_at` form yet conclude `OneReport` (no line).
+  end on the same line.)  All 24 classes conclude `OneReportAt` (dup frame code: the same clause, written out).
 -/
 namespace CifModel.Props
 open CifModel CifModel.Model CifModel.Model.Lexer CifModel.Model.Parser CifModel.Spec.Lexical CifModel.Spec.Grammar
@@ -434,13 +434,16 @@ theorem C12_chars_unexpected_delim (o : Opts) (cs : List Chunk) (preB postB : Li
     (ty : TokType) (tx : Str) (seen2 : List Str) (H : ItemHost o cs preB postB bc pre post [(ty, tx)])
     (hty : ty = .clist ∨ ty = .ctable) (hnoloop : lastIsLoop pre = false) (hpost : wfItems o post seen2 = true)
     (hseen2 : ∀ k ∈ normNames o (denoteItems o.dia o.normKey pre []), k ∈ seen2) :
-    OneReport o cs CIF_UNEXPECTED_DELIM (preB ++ [plainBlock bc (pre ++ post)] ++ postB) :=
-  items_class_doc H _ CIF_UNEXPECTED_DELIM 0 (by simp)
-    (by simpa using allPacked_run o pre post [] seen2 H.wfRun hpost (fun _ h => h))
-    (fun hv rest1 s1 w1 f hw1 hf hfol hF1 =>
-      have hterm := blockFollow_term hfol
-      C12_unexpected_delim o hv pre post ty tx [] seen2 rest1 s1 f w1 [] [] true hw1 hty H.wfRun (nil_seen o) hnoloop hpost hseen2
-        (by omega) (fun _ => hterm) hF1)
+    OneReportAt o cs CIF_UNEXPECTED_DELIM
+      (preB ++ [plainBlock bc (pre ++ post)] ++ postB)
+      ((blocksToks preB).length + 1 + ((itemsToks pre).length + 0)) := by
+  refine items_class_doc_at H _ CIF_UNEXPECTED_DELIM 0 _ (by simp) (by omega)
+    (by simpa using allPacked_run o pre post [] seen2 H.wfRun hpost (fun _ h => h)) ?_
+  intro hv rest1 s1 w1 f hw1 hf hfol hF1
+  have hterm := blockFollow_term hfol
+  obtain ⟨s2, r, h1, h2, h3, h4, _⟩ := C12_unexpected_delim_at o hv pre post ty tx [] seen2 rest1 s1 f w1 [] [] true hw1 hty H.wfRun
+    (nil_seen o) hnoloop hpost hseen2 (by omega) (fun _ => hterm) hF1
+  exact ⟨s2, r, h1, h2, h3, h4⟩
 
 /-- **C12_chars_unexpected_term** — `save_` in a data block while no save frame is open.  One report, CIF_UNEXPECTED_TERM; the
     content is that of the document without it. -/
@@ -448,13 +451,16 @@ theorem C12_chars_unexpected_term (o : Opts) (cs : List Chunk) (preB postB : Lis
     (tx : Str) (seen2 : List Str) (H : ItemHost o cs preB postB bc pre post [(.frameTerm, tx)])
     (hpost : wfItems o post seen2 = true)
     (hseen2 : ∀ k ∈ normNames o (denoteItems o.dia o.normKey pre []), k ∈ seen2) :
-    OneReport o cs CIF_UNEXPECTED_TERM (preB ++ [plainBlock bc (pre ++ post)] ++ postB) :=
-  items_class_doc H _ CIF_UNEXPECTED_TERM 0 (by simp)
-    (by simpa using allPacked_run o pre post [] seen2 H.wfRun hpost (fun _ h => h))
-    (fun hv rest1 s1 w1 f hw1 hf hfol hF1 =>
-      have hterm := blockFollow_term hfol
-      C12_unexpected_term o hv pre post tx [] seen2 rest1 s1 f w1 [] [] hw1 H.wfRun (nil_seen o) hpost hseen2
-        (by omega) (fun _ => hterm) hF1)
+    OneReportAt o cs CIF_UNEXPECTED_TERM
+      (preB ++ [plainBlock bc (pre ++ post)] ++ postB)
+      ((blocksToks preB).length + 1 + ((itemsToks pre).length + 0)) := by
+  refine items_class_doc_at H _ CIF_UNEXPECTED_TERM 0 _ (by simp) (by omega)
+    (by simpa using allPacked_run o pre post [] seen2 H.wfRun hpost (fun _ h => h)) ?_
+  intro hv rest1 s1 w1 f hw1 hf hfol hF1
+  have hterm := blockFollow_term hfol
+  obtain ⟨s2, r, h1, h2, h3, h4, _⟩ := C12_unexpected_term_at o hv pre post tx [] seen2 rest1 s1 f w1 [] [] hw1 H.wfRun
+    (nil_seen o) hpost hseen2 (by omega) (fun _ => hterm) hF1
+  exact ⟨s2, r, h1, h2, h3, h4⟩
 
 /-- **C12_chars_null_loop** — `loop_` that is not followed by a data name: the next token is `loop_`, a block header, or the end
     of the input.  One report, CIF_NULL_LOOP; the content is that of the document without it. -/
@@ -463,23 +469,27 @@ theorem C12_chars_null_loop (o : Opts) (cs : List Chunk) (preB postB : List Bloc
     (hpost : wfItems o post seen2 = true)
     (hseen2 : ∀ k ∈ normNames o (denoteItems o.dia o.normKey pre []), k ∈ seen2)
     (hnext : ∀ i r, post = i :: r → ∃ ms ps, i = .loop ms ps) :
-    OneReport o cs CIF_NULL_LOOP (preB ++ [plainBlock bc (pre ++ post)] ++ postB) :=
-  items_class_doc H _ CIF_NULL_LOOP 1 (by simp)
-    (by simpa using allPacked_run o pre post [] seen2 H.wfRun hpost (fun _ h => h))
-    (fun hv rest1 s1 w1 f hw1 hf hfol hF1 =>
-      have hterm := blockFollow_term hfol
-      C12_null_loop o hv pre post [] seen2 rest1 s1 f w1 [] [] true hw1 H.wfRun (nil_seen o) hpost hseen2 (by omega)
-        (by
-          cases post with
-          | nil =>
-            obtain ⟨ty, tx, ts, rfl, ht⟩ := hfol
-            refine ⟨ty, tx, ts, rfl, ?_⟩
-            rcases ht with h | h <;> subst h <;> decide
-          | cons i r0 =>
-            obtain ⟨ms, ps, rfl⟩ := hnext i r0 rfl
-            exact ⟨.loopKw, [], ms.map (fun n => (TokType.name, n)) ++ (packetsToks ps ++ (itemsToks r0 ++ rest1)),
-              by simp [itemsToks, itemToks], by decide⟩)
-        (fun _ => hterm) hF1)
+    OneReportAt o cs CIF_NULL_LOOP
+      (preB ++ [plainBlock bc (pre ++ post)] ++ postB)
+      ((blocksToks preB).length + 1 + ((itemsToks pre).length + 1)) := by
+  refine items_class_doc_at H _ CIF_NULL_LOOP 1 _ (by simp) (by simp)
+    (by simpa using allPacked_run o pre post [] seen2 H.wfRun hpost (fun _ h => h)) ?_
+  intro hv rest1 s1 w1 f hw1 hf hfol hF1
+  have hterm := blockFollow_term hfol
+  obtain ⟨s2, r, h1, h2, h3, h4, _⟩ := C12_null_loop_at o hv pre post [] seen2 rest1 s1 f w1 [] [] true hw1 H.wfRun (nil_seen o)
+    hpost hseen2 (by omega)
+    (by
+      cases post with
+      | nil =>
+        obtain ⟨ty, tx, ts, rfl, ht⟩ := hfol
+        refine ⟨ty, tx, ts, rfl, ?_⟩
+        rcases ht with h | h <;> subst h <;> decide
+      | cons i r0 =>
+        obtain ⟨ms, ps, rfl⟩ := hnext i r0 rfl
+        exact ⟨.loopKw, [], ms.map (fun n => (TokType.name, n)) ++ (packetsToks ps ++ (itemsToks r0 ++ rest1)),
+          by simp [itemsToks, itemToks], by decide⟩)
+    (fun _ => hterm) hF1
+  exact ⟨s2, r, h1, h2, h3, h4⟩
 
 /-- **C12_chars_invalid_itemname** — a data name that is not a valid item name, with its value.  One report,
     CIF_INVALID_ITEMNAME; the content is that of the document without the item. -/
@@ -487,13 +497,17 @@ theorem C12_chars_invalid_itemname (o : Opts) (cs : List Chunk) (preB postB : Li
     (n : Str) (v : Val) (seen2 : List Str) (H : ItemHost o cs preB postB bc pre post ((.name, n) :: valToks v))
     (hn0 : noNul n = true) (hinv : isValidName true n = false) (hwv : wfVal o v = true) (hpost : wfItems o post seen2 = true)
     (hseen2 : ∀ k ∈ normNames o (denoteItems o.dia o.normKey pre []), k ∈ seen2) :
-    OneReport o cs CIF_INVALID_ITEMNAME (preB ++ [plainBlock bc (pre ++ post)] ++ postB) :=
-  items_class_doc H _ CIF_INVALID_ITEMNAME (szVal v) (by rw [Lemmas.WriterChunks.szVal_toks]; simp only [List.length_cons]; omega)
-    (by simpa using allPacked_run o pre post [] seen2 H.wfRun hpost (fun _ h => h))
-    (fun hv rest1 s1 w1 f hw1 hf hfol hF1 =>
-      have hterm := blockFollow_term hfol
-      C12_invalid_itemname o hv pre post n v [] seen2 rest1 s1 f w1 [] [] true hw1 H.wfRun (nil_seen o) hn0 hinv hwv hpost hseen2
-        (by omega) (fun _ => hterm) hF1)
+    OneReportAt o cs CIF_INVALID_ITEMNAME
+      (preB ++ [plainBlock bc (pre ++ post)] ++ postB)
+      ((blocksToks preB).length + 1 + ((itemsToks pre).length + 1)) := by
+  refine items_class_doc_at H _ CIF_INVALID_ITEMNAME (szVal v) _
+    (by rw [Lemmas.WriterChunks.szVal_toks]; simp only [List.length_cons]; omega) (by simp only [List.length_cons]; omega)
+    (by simpa using allPacked_run o pre post [] seen2 H.wfRun hpost (fun _ h => h)) ?_
+  intro hv rest1 s1 w1 f hw1 hf hfol hF1
+  have hterm := blockFollow_term hfol
+  obtain ⟨s2, r, h1, h2, h3, h4, _⟩ := C12_invalid_itemname_at o hv pre post n v [] seen2 rest1 s1 f w1 [] [] true hw1 H.wfRun
+    (nil_seen o) hn0 hinv hwv hpost hseen2 (by omega) (fun _ => hterm) hF1
+  exact ⟨s2, r, h1, h2, h3, h4⟩
 
 /-- **C12_chars_missing_delim_list** — a list (elements of any kind and depth) whose closing bracket is missing, as the value of an
     item.  One report, CIF_MISSING_DELIM; the content is that of the document with the bracket in front of the token that cannot
@@ -504,13 +518,17 @@ theorem C12_chars_missing_delim_list (o : Opts) (cs : List Chunk) (preB postB : 
     (hname : wfName n = true) (hfresh : o.norm n ∉ normNames o (denoteItems o.dia o.normKey pre []))
     (hwv : wfVals o vs = true) (hpost : wfItems o post seen2 = true)
     (hseen2 : ∀ k ∈ normNames o (denoteItems o.dia o.normKey (pre ++ [.item n (.lst vs)]) []), k ∈ seen2) :
-    OneReport o cs CIF_MISSING_DELIM (preB ++ [plainBlock bc (pre ++ [.item n (.lst vs)] ++ post)] ++ postB) :=
-  items_class_doc H _ CIF_MISSING_DELIM (szVals vs + 2) (by rw [Lemmas.WriterChunks.szVals_toks]; simp only [List.length_cons]; omega)
-    (allPacked_run o pre post _ seen2 H.wfRun hpost (allPacked_item o n _))
-    (fun hv rest1 s1 w1 f hw1 hf hfol hF1 =>
-      have hterm := blockFollow_term hfol
-      C12_missing_delim_list o hv pre post n btx vs [] seen2 rest1 s1 f w1 [] [] true hw1 H.wfRun (nil_seen o) hname hfresh hwv hpost
-        hseen2 (by omega) (Or.inr hterm) (fun _ => hterm) hF1)
+    OneReportAt o cs CIF_MISSING_DELIM
+      (preB ++ [plainBlock bc (pre ++ [.item n (.lst vs)] ++ post)] ++ postB)
+      ((blocksToks preB).length + 1 + ((itemsToks pre).length + (1 + (1 + (valsToks vs).length)))) := by
+  refine items_class_doc_at H _ CIF_MISSING_DELIM (szVals vs + 2) _
+    (by rw [Lemmas.WriterChunks.szVals_toks]; simp only [List.length_cons]; omega) (by simp only [List.length_cons, List.length_append, List.length_nil]; omega)
+    (allPacked_run o pre post _ seen2 H.wfRun hpost (allPacked_item o n _)) ?_
+  intro hv rest1 s1 w1 f hw1 hf hfol hF1
+  have hterm := blockFollow_term hfol
+  obtain ⟨s2, r, h1, h2, h3, h4, _⟩ := C12_missing_delim_list_at o hv pre post n btx vs [] seen2 rest1 s1 f w1 [] [] true hw1 H.wfRun
+    (nil_seen o) hname hfresh hwv hpost hseen2 (by omega) (Or.inr hterm) (fun _ => hterm) hF1
+  exact ⟨s2, r, h1, h2, h3, h4⟩
 
 /-- **C12_chars_missing_delim_table** — a table whose closing brace is missing, as the value of an item.  One report,
     CIF_MISSING_DELIM; the content is that of the document with the brace. -/
@@ -520,15 +538,17 @@ theorem C12_chars_missing_delim_table (o : Opts) (cs : List Chunk) (preB postB :
     (hname : wfName n = true) (hfresh : o.norm n ∉ normNames o (denoteItems o.dia o.normKey pre []))
     (hwv : wfEntries o es = true) (hpost : wfItems o post seen2 = true)
     (hseen2 : ∀ k ∈ normNames o (denoteItems o.dia o.normKey (pre ++ [.item n (.tbl es)]) []), k ∈ seen2) :
-    OneReport o cs CIF_MISSING_DELIM (preB ++ [plainBlock bc (pre ++ [.item n (.tbl es)] ++ post)] ++ postB) :=
-  items_class_doc H _ CIF_MISSING_DELIM (szEntries es + 2)
-    (by rw [Lemmas.WriterChunks.szEntries_toks]; simp only [List.length_cons]; omega)
-    (allPacked_run o pre post _ seen2 H.wfRun hpost (allPacked_item o n _))
-    (fun hv rest1 s1 w1 f hw1 hf hfol hF1 =>
-      have hterm := blockFollow_term hfol
-      C12_missing_delim_table o hv pre post n btx es [] seen2 rest1 s1 f w1 [] [] true hw1 H.wfRun (nil_seen o) hname hfresh hwv hpost
-        hseen2 (by omega) (Or.inr hterm) (fun _ => hterm) hF1)
-
+    OneReportAt o cs CIF_MISSING_DELIM
+      (preB ++ [plainBlock bc (pre ++ [.item n (.tbl es)] ++ post)] ++ postB)
+      ((blocksToks preB).length + 1 + ((itemsToks pre).length + (1 + (1 + (entriesToks es).length)))) := by
+  refine items_class_doc_at H _ CIF_MISSING_DELIM (szEntries es + 2) _
+    (by rw [Lemmas.WriterChunks.szEntries_toks]; simp only [List.length_cons]; omega) (by simp only [List.length_cons, List.length_append, List.length_nil]; omega)
+    (allPacked_run o pre post _ seen2 H.wfRun hpost (allPacked_item o n _)) ?_
+  intro hv rest1 s1 w1 f hw1 hf hfol hF1
+  have hterm := blockFollow_term hfol
+  obtain ⟨s2, r, h1, h2, h3, h4, _⟩ := C12_missing_delim_table_at o hv pre post n btx es [] seen2 rest1 s1 f w1 [] [] true hw1 H.wfRun
+    (nil_seen o) hname hfresh hwv hpost hseen2 (by omega) (Or.inr hterm) (fun _ => hterm) hF1
+  exact ⟨s2, r, h1, h2, h3, h4⟩
 
 /-! ### the table-key classes whose defect is a whole token (Props/C12Lex) — any entries before and behind inside the table -/
 
@@ -542,19 +562,21 @@ theorem C12_chars_table_missing_value (o : Opts) (cs : List Chunk) (preB postB :
     (hepre : wfEntries o epre = true) (hepost : wfEntries o epost = true) (hk0 : noNul k = true) (hkd : hasDisallowed k = false)
     (hpost : wfItems o post seen2 = true)
     (hseen2 : ∀ x ∈ normNames o (denoteItems o.dia o.normKey (pre ++ [.item n (.tbl (epre ++ [(k, kp, Val.unk)] ++ epost))]) []), x ∈ seen2) :
-    OneReport o cs CIF_MISSING_VALUE
-      (preB ++ [plainBlock bc (pre ++ [.item n (.tbl (epre ++ [(k, kp, Val.unk)] ++ epost))] ++ post)] ++ postB) := by
+    OneReportAt o cs CIF_MISSING_VALUE
+      (preB ++ [plainBlock bc (pre ++ [.item n (.tbl (epre ++ [(k, kp, Val.unk)] ++ epost))] ++ post)] ++ postB)
+      ((blocksToks preB).length + 1 + ((itemsToks pre).length + (1 + (1 + ((entriesToks epre).length + 1))))) := by
   have hl := szEntries_len epre
-  refine items_class_doc H _ CIF_MISSING_VALUE (szEntries epre + szEntries epost + 0 + 2 + 2 * epre.length + 3)
+  refine items_class_doc_at H _ CIF_MISSING_VALUE (szEntries epre + szEntries epost + 0 + 2 + 2 * epre.length + 3) _
     (by
       rw [Lemmas.WriterChunks.szEntries_toks epre, Lemmas.WriterChunks.szEntries_toks epost] at *
       simp only [List.length_cons, List.length_append, List.length_nil]; omega)
+    (by simp only [List.length_cons, List.length_append, List.length_nil]; omega)
     (allPacked_run o pre post _ seen2 H.wfRun hpost (allPacked_item o n _)) ?_
   intro hv rest1 s1 w1 f hw1 hf hfol hF1
   have hterm := blockFollow_term hfol
-  have := C12_table_missing_value o hv pre post n btx epre epost k kp [] seen2 rest1 s1 f w1 [] [] true hw1 H.wfRun (nil_seen o) hname hfresh
-        hepre hepost hk0 hkd hpost hseen2 (by omega) (fun _ => hterm) hF1
-  simpa using this
+  obtain ⟨s2, r, h1, h2, h3, h4, _⟩ := C12_table_missing_value_at o hv pre post n btx epre epost k kp [] seen2 rest1 s1 f w1 [] [] true
+    hw1 H.wfRun (nil_seen o) hname hfresh hepre hepost hk0 hkd hpost hseen2 (by omega) (fun _ => hterm) hF1
+  exact ⟨s2, r, by simpa using h1, h2, h3, h4⟩
 
 /-- **C12_chars_missing_key** — a delimited string, text field, list or table without key inside a table.  One report,
     CIF_MISSING_KEY; the content is that of the document without that value. -/
@@ -566,18 +588,21 @@ theorem C12_chars_missing_key (o : Opts) (cs : List Chunk) (preB postB : List Bl
     (hepre : wfEntries o epre = true) (hepost : wfEntries o epost = true) (hnb : notBare v = true) (hwv : wfVal o v = true)
     (hpost : wfItems o post seen2 = true)
     (hseen2 : ∀ x ∈ normNames o (denoteItems o.dia o.normKey (pre ++ [.item n (.tbl (epre ++ epost))]) []), x ∈ seen2) :
-    OneReport o cs CIF_MISSING_KEY (preB ++ [plainBlock bc (pre ++ [.item n (.tbl (epre ++ epost))] ++ post)] ++ postB) := by
+    OneReportAt o cs CIF_MISSING_KEY
+      (preB ++ [plainBlock bc (pre ++ [.item n (.tbl (epre ++ epost))] ++ post)] ++ postB)
+      ((blocksToks preB).length + 1 + ((itemsToks pre).length + (1 + (1 + ((entriesToks epre).length + 0))))) := by
   have hl := szEntries_len epre
-  refine items_class_doc H _ CIF_MISSING_KEY (szEntries epre + szEntries epost + szVal v + 1 + 2 * epre.length + 3)
+  refine items_class_doc_at H _ CIF_MISSING_KEY (szEntries epre + szEntries epost + szVal v + 1 + 2 * epre.length + 3) _
     (by
       rw [Lemmas.WriterChunks.szEntries_toks epre, Lemmas.WriterChunks.szEntries_toks epost, Lemmas.WriterChunks.szVal_toks] at *
       simp only [List.length_cons, List.length_append, List.length_nil]; omega)
+    (by simp only [List.length_cons, List.length_append, List.length_nil]; omega)
     (allPacked_run o pre post _ seen2 H.wfRun hpost (allPacked_item o n _)) ?_
   intro hv rest1 s1 w1 f hw1 hf hfol hF1
   have hterm := blockFollow_term hfol
-  have := C12_missing_key o hv pre post n btx epre epost v [] seen2 rest1 s1 f w1 [] [] true hw1 H.wfRun (nil_seen o) hname
-        hfresh hepre hepost hnb hwv hpost (by simpa using hseen2) (by omega) (fun _ => hterm) hF1
-  simpa using this
+  obtain ⟨s2, r, h1, h2, h3, h4, _⟩ := C12_missing_key_at o hv pre post n btx epre epost v [] seen2 rest1 s1 f w1 [] [] true hw1 H.wfRun
+    (nil_seen o) hname hfresh hepre hepost hnb hwv hpost (by simpa using hseen2) (by omega) (fun _ => hterm) hF1
+  exact ⟨s2, r, by simpa using h1, h2, h3, h4⟩
 
 /-- **C12_chars_missing_key_word** — a whitespace-delimited word without colon inside a table.  One report, CIF_MISSING_KEY; the
     content is that of the document without the word. -/
@@ -589,18 +614,21 @@ theorem C12_chars_missing_key_word (o : Opts) (cs : List Chunk) (preB postB : Li
     (hepre : wfEntries o epre = true) (hepost : wfEntries o epost = true) (hhead : tx.head? ≠ some colon) (hcolon : colonIdx tx = none)
     (hpost : wfItems o post seen2 = true)
     (hseen2 : ∀ x ∈ normNames o (denoteItems o.dia o.normKey (pre ++ [.item n (.tbl (epre ++ epost))]) []), x ∈ seen2) :
-    OneReport o cs CIF_MISSING_KEY (preB ++ [plainBlock bc (pre ++ [.item n (.tbl (epre ++ epost))] ++ post)] ++ postB) := by
+    OneReportAt o cs CIF_MISSING_KEY
+      (preB ++ [plainBlock bc (pre ++ [.item n (.tbl (epre ++ epost))] ++ post)] ++ postB)
+      ((blocksToks preB).length + 1 + ((itemsToks pre).length + (1 + (1 + ((entriesToks epre).length + 0))))) := by
   have hl := szEntries_len epre
-  refine items_class_doc H _ CIF_MISSING_KEY (szEntries epre + szEntries epost + 0 + 1 + 2 * epre.length + 3)
+  refine items_class_doc_at H _ CIF_MISSING_KEY (szEntries epre + szEntries epost + 0 + 1 + 2 * epre.length + 3) _
     (by
       rw [Lemmas.WriterChunks.szEntries_toks epre, Lemmas.WriterChunks.szEntries_toks epost] at *
       simp only [List.length_cons, List.length_append, List.length_nil]; omega)
+    (by simp only [List.length_cons, List.length_append, List.length_nil]; omega)
     (allPacked_run o pre post _ seen2 H.wfRun hpost (allPacked_item o n _)) ?_
   intro hv rest1 s1 w1 f hw1 hf hfol hF1
   have hterm := blockFollow_term hfol
-  have := C12_missing_key_word o hv pre post n btx epre epost tx [] seen2 rest1 s1 f w1 [] [] true hw1 H.wfRun (nil_seen o)
-        hname hfresh hepre hepost hhead hcolon hpost (by simpa using hseen2) (by omega) (fun _ => hterm) hF1
-  simpa using this
+  obtain ⟨s2, r, h1, h2, h3, h4, _⟩ := C12_missing_key_word_at o hv pre post n btx epre epost tx [] seen2 rest1 s1 f w1 [] [] true hw1
+    H.wfRun (nil_seen o) hname hfresh hepre hepost hhead hcolon hpost (by simpa using hseen2) (by omega) (fun _ => hterm) hF1
+  exact ⟨s2, r, by simpa using h1, h2, h3, h4⟩
 
 /-- **C12_chars_null_key** — a colon standing alone in key position, with the value behind it.  One report, CIF_NULL_KEY; the
     content is that of the document without that entry. -/
@@ -612,19 +640,21 @@ theorem C12_chars_null_key (o : Opts) (cs : List Chunk) (preB postB : List Block
     (hepre : wfEntries o epre = true) (hepost : wfEntries o epost = true) (hwv : wfVal o v = true)
     (hpost : wfItems o post seen2 = true)
     (hseen2 : ∀ x ∈ normNames o (denoteItems o.dia o.normKey (pre ++ [.item n (.tbl (epre ++ epost))]) []), x ∈ seen2) :
-    OneReport o cs CIF_NULL_KEY (preB ++ [plainBlock bc (pre ++ [.item n (.tbl (epre ++ epost))] ++ post)] ++ postB) := by
+    OneReportAt o cs CIF_NULL_KEY
+      (preB ++ [plainBlock bc (pre ++ [.item n (.tbl (epre ++ epost))] ++ post)] ++ postB)
+      ((blocksToks preB).length + 1 + ((itemsToks pre).length + (1 + (1 + ((entriesToks epre).length + 0))))) := by
   have hl := szEntries_len epre
-  refine items_class_doc H _ CIF_NULL_KEY (szEntries epre + szEntries epost + szVal v + 2 + 2 * epre.length + 3)
+  refine items_class_doc_at H _ CIF_NULL_KEY (szEntries epre + szEntries epost + szVal v + 2 + 2 * epre.length + 3) _
     (by
       rw [Lemmas.WriterChunks.szEntries_toks epre, Lemmas.WriterChunks.szEntries_toks epost, Lemmas.WriterChunks.szVal_toks] at *
       simp only [List.length_cons, List.length_append, List.length_nil]; omega)
+    (by simp only [List.length_cons, List.length_append, List.length_nil]; omega)
     (allPacked_run o pre post _ seen2 H.wfRun hpost (allPacked_item o n _)) ?_
   intro hv rest1 s1 w1 f hw1 hf hfol hF1
   have hterm := blockFollow_term hfol
-  have := C12_null_key o hv pre post n btx epre epost v [] seen2 rest1 s1 f w1 [] [] true hw1 H.wfRun (nil_seen o) hname
-        hfresh hepre hepost hwv hpost (by simpa using hseen2) (by omega) (fun _ => hterm) hF1
-  simpa using this
-
+  obtain ⟨s2, r, h1, h2, h3, h4, _⟩ := C12_null_key_at o hv pre post n btx epre epost v [] seen2 rest1 s1 f w1 [] [] true hw1 H.wfRun
+    (nil_seen o) hname hfresh hepre hepost hwv hpost (by simpa using hseen2) (by omega) (fun _ => hterm) hF1
+  exact ⟨s2, r, by simpa using h1, h2, h3, h4⟩
 
 /-! ### the block-level classes -/
 
@@ -680,7 +710,7 @@ theorem C12_chars_invalid_blockcode (o : Opts) (cs : List Chunk) (pre post : Lis
     (hpre : wfBlocks o pre [] = true) (hn0 : noNul b.code = true) (hinv : isValidName false b.code = false)
     (hnew : ∀ x ∈ pre, o.norm x.code ≠ o.norm b.code) (hwb : wfElems o b.body [] [] = true)
     (hpost : wfBlocks o post bseen2 = true) (hseen2 : ∀ x ∈ pre ++ [b], o.norm x.code ∈ bseen2) :
-    OneReport o cs CIF_INVALID_BLOCKCODE (pre ++ [b] ++ post) := by
+    OneReportAt o cs CIF_INVALID_BLOCKCODE (pre ++ [b] ++ post) ((blocksToks pre).length + 0) := by
   obtain ⟨c, rest, hc, hfirst, hbom⟩ := H.first
   have hfu := fuel_doc H.ok
   have hfe := feeds_doc H hc
@@ -701,7 +731,7 @@ theorem C12_chars_invalid_blockcode (o : Opts) (cs : List Chunk) (pre post : Lis
     intro x y; induction x with
     | nil => rfl
     | cons a r ih => simp [blocksToks, ih]
-  obtain ⟨s', r, h, hr⟩ := C12_invalid_blockcode o H.store hmfd pre post b [] bseen2 _ f { log := [], cif := [] } hpre
+  obtain ⟨s', r, h, hr, hrep⟩ := C12_invalid_blockcode_at o H.store hmfd pre post b [] bseen2 _ f { log := [], cif := [] } hpre
     (by intro x hx; cases hx) hn0 hinv
     (by
       intro x hx
@@ -718,7 +748,11 @@ theorem C12_chars_invalid_blockcode (o : Opts) (cs : List Chunk) (pre post : Lis
     (by omega)
     (by simpa [hbt, blocksToks, List.append_assoc] using hfe)
   rw [← hf] at h
-  exact ⟨r, by rw [hc, parse_of_blocks o acceptAll c rest s' _ H.utf hfirst hbom h]; simp, hr⟩
+  refine ⟨r, by rw [hc, parse_of_blocks o acceptAll c rest s' _ H.utf hfirst hbom h]; simp, hr, ?_⟩
+  have hS : ({ scan := Scan.init (renderChunks cs), tok := none } : PS) = { scan := Scan.init (c :: rest), tok := none } := by rw [hc]
+  rw [← hS] at hrep
+  refine repAt_line o cs H.ok H.fit ?_ hrep
+  rw [ht, hbt, hbt]; simp only [List.length_append]; omega
 
 
 theorem blocksToks_append : ∀ (x y : List Block), blocksToks (x ++ y) = blocksToks x ++ blocksToks y
@@ -740,7 +774,8 @@ theorem C12_chars_dup_blockcode (o : Opts) (cs : List Chunk) (pa pb post : List 
     (hab : ∀ x ∈ pa ++ pb, o.norm x.code ≠ o.norm code)
     (hwb : wfItems o body (normNames o (denoteElems o.dia o.normKey b0.body [] []).2) = true)
     (hpost : wfBlocks o post bseen2 = true) (hseen2 : ∀ x ∈ pa ++ [b0] ++ pb, o.norm x.code ∈ bseen2) :
-    OneReport o cs CIF_DUP_BLOCKCODE (pa ++ [{ code := b0.code, body := b0.body ++ body.map .plain }] ++ pb ++ post) := by
+    OneReportAt o cs CIF_DUP_BLOCKCODE (pa ++ [{ code := b0.code, body := b0.body ++ body.map .plain }] ++ pb ++ post)
+      ((blocksToks (pa ++ [b0] ++ pb)).length + 0) := by
   obtain ⟨c, rest, hc, hfirst, hbom⟩ := H.first
   have hfu := fuel_doc H.ok
   have hfe := feeds_doc H hc
@@ -760,7 +795,7 @@ theorem C12_chars_dup_blockcode (o : Opts) (cs : List Chunk) (pa pb post : List 
     obtain ⟨y, hy, hcy⟩ := denote_code this
     simp only [codeIs, hcy, beq_eq_false_iff_ne, ne_eq]
     exact hab y hy
-  obtain ⟨s', r, h, hr⟩ := C12_dup_blockcode o H.store hmfd (pa ++ [b0] ++ pb) post code b0.code body [] bseen2
+  obtain ⟨s', r, h, hr, hrep⟩ := C12_dup_blockcode_at o H.store hmfd (pa ++ [b0] ++ pb) post code b0.code body [] bseen2
     (normNames o (denoteElems o.dia o.normKey b0.body [] []).2) _ f { log := [], cif := [] }
     (denote o.dia o.normKey pa) (denote o.dia o.normKey pb) (denoteElems o.dia o.normKey b0.body [] []).1
     (denoteElems o.dia o.normKey b0.body [] []).2 hpre (by intro x hx; cases hx) hcode hk
@@ -775,7 +810,9 @@ theorem C12_chars_dup_blockcode (o : Opts) (cs : List Chunk) (pa pb post : List 
     (by omega)
     (by simpa [List.append_assoc] using hfe)
   rw [← hf] at h
-  refine ⟨r, ?_, hr⟩
+  have hS : ({ scan := Scan.init (renderChunks cs), tok := none } : PS) = { scan := Scan.init (c :: rest), tok := none } := by rw [hc]
+  rw [← hS] at hrep
+  refine ⟨r, ?_, hr, repAt_line o cs H.ok H.fit (by rw [ht]; simp only [List.length_append]; omega) hrep⟩
   rw [hc, parse_of_blocks o acceptAll c rest s' _ H.utf hfirst hbom h]
   simp [denote, denoteBlock, denoteElems_append, denoteElems_map_plain]
 
@@ -841,6 +878,27 @@ theorem elems_class_doc {o : Opts} {cs : List Chunk} {preB postB : List Block} {
     exact ⟨s2, r, h1, h2, h3, trivial⟩)
   exact ⟨r, by rw [h, pruneC_packed _ _ _ hpk]; simp [denote, denoteBlock], hr⟩
 
+/-- … with the position of the report (`hstep`: the `_at` form of the class theorem) -/
+theorem elems_class_doc_at {o : Opts} {cs : List Chunk} {preB postB : List Block} {bc : Str} {pre post : List Elem} {D : List TokSpec}
+    (H : ElemHost o cs preB postB bc pre post D) (es : List Elem) (C : Code) (K j : Nat) (hK : K ≤ 2 * D.length + 18)
+    (hj : j ≤ (elemsToks pre).length + D.length)
+    (hpk : allPacked (denoteElems o.dia o.normKey es [] []).2)
+    (hstep : ∀ (s1 : PS) (w1 : W) (f : Nat), w1.cif = denote o.dia o.normKey preB ++ [.mk bc [] []] →
+        szElems pre + szElems post + K + 1 ≤ f →
+        Feeds o s1 (elemsToks pre ++ (D ++ (elemsToks post ++ (blocksToks postB ++ [(.end_, [])])))) →
+        ∃ s2 r, elemsLoop o (f + post.length + 1 + pre.length) s1 (some [o.norm bc]) true acceptAll w1
+            = elemsLoop o f s2 (some [o.norm bc]) true acceptAll
+                { log := r :: w1.log,
+                  cif := denote o.dia o.normKey preB ++ [.mk bc (denoteElems o.dia o.normKey es [] []).1 (denoteElems o.dia o.normKey es [] []).2] }
+          ∧ r.code = C ∧ Feeds o s2 (blocksToks postB ++ [(.end_, [])]) ∧ RepAt o s1 j r) :
+    OneReportAt o cs C (preB ++ [{ code := bc, body := es }] ++ postB) ((blocksToks preB).length + 1 + j) := by
+  obtain ⟨r, h, hr, hat⟩ := elems_class H _ _ C K (fun s1 r => RepAt o s1 j r) hK hstep
+  refine ⟨r, by rw [h, pruneC_packed _ _ _ hpk]; simp [denote, denoteBlock], hr, ?_⟩
+  refine line_of_block H.toTextOk ?_ hat
+  rw [H.hToks]
+  simp only [List.length_append, List.length_cons]
+  omega
+
 /-- loops of the block around a frame: none is empty -/
 theorem allPacked_around (o : Opts) (pre post : List Elem) (fc : Str) (body : List Item) (seen2 fseen2 : List Str)
     (hpre : wfElems o pre [] [] = true) (hpost : wfElems o post seen2 fseen2 = true) :
@@ -860,15 +918,17 @@ theorem C12_chars_invalid_framecode (o : Opts) (cs : List Chunk) (preB postB : L
     (hwb : wfItems o body [] = true) (hpost : wfElems o post seen2 fseen2 = true)
     (hseen2 : ∀ k ∈ normNames o (denoteElems o.dia o.normKey (pre ++ [.frame fc (body.map Elem.plain)]) [] []).2, k ∈ seen2)
     (hfseen2 : ∀ c ∈ (denoteElems o.dia o.normKey (pre ++ [.frame fc (body.map Elem.plain)]) [] []).1, o.norm c.code ∈ fseen2) :
-    OneReport o cs CIF_INVALID_FRAMECODE (preB ++ [{ code := bc, body := pre ++ [.frame fc (body.map Elem.plain)] ++ post }] ++ postB) := by
+    OneReportAt o cs CIF_INVALID_FRAMECODE (preB ++ [{ code := bc, body := pre ++ [.frame fc (body.map Elem.plain)] ++ post }] ++ postB)
+      ((blocksToks preB).length + 1 + ((elemsToks pre).length + 0)) := by
   have h4 := Lemmas.WriterChunks.szItems_toks body
-  refine elems_class_doc H _ CIF_INVALID_FRAMECODE (szItems body + body.length + 3)
-    (by simp only [List.length_cons, List.length_append, List.length_nil]; omega)
+  refine elems_class_doc_at H _ CIF_INVALID_FRAMECODE (szItems body + body.length + 3) _
+    (by simp only [List.length_cons, List.length_append, List.length_nil]; omega) (by omega)
     (allPacked_around o pre post fc body seen2 fseen2 H.wfRun hpost) ?_
   intro s1 w1 f hw1 hf hF1
-  exact C12_invalid_framecode o _ bc H.fresh' H.mfd pre post fc body [] [] seen2 fseen2 _ s1 f w1 [] [] hw1 H.wfRun (nil_seen o)
+  obtain ⟨s2, r, h1, h2, h3, h4, _⟩ := C12_invalid_framecode_at o _ bc H.fresh' H.mfd pre post fc body [] [] seen2 fseen2 _ s1 f w1 [] [] hw1 H.wfRun (nil_seen o)
     (by intro c hc; cases hc) hn0 hinv hnew hwb hpost hseen2 hfseen2 (by omega) (blockFollow_term (blocks_rest_head postB)) hF1
 
+  exact ⟨s2, r, h1, h2, h3, h4⟩
 
 /-- **C12_chars_eof_in_frame** — the input ends inside a save frame (the last construct of the last block).  One report,
     CIF_EOF_IN_FRAME; the content is that of the document with the frame terminated. -/
@@ -876,16 +936,17 @@ theorem C12_chars_eof_in_frame (o : Opts) (cs : List Chunk) (preB : List Block) 
     (fc : Str) (body : List Item) (H : ElemHost o cs preB [] bc pre [] ((.frameHead, fc) :: itemsToks body))
     (hcode : wfCode fc = true) (hnew : ∀ c ∈ (denoteElems o.dia o.normKey pre [] []).1, codeIs o.norm (o.norm fc) c = false)
     (hwb : wfItems o body [] = true) :
-    OneReport o cs CIF_EOF_IN_FRAME (preB ++ [{ code := bc, body := pre ++ [.frame fc (body.map Elem.plain)] }] ++ []) := by
+    OneReportAt o cs CIF_EOF_IN_FRAME (preB ++ [{ code := bc, body := pre ++ [.frame fc (body.map Elem.plain)] }] ++ [])
+      ((blocksToks preB).length + 1 + ((elemsToks pre).length + (1 + (itemsToks body).length))) := by
   have h4 := Lemmas.WriterChunks.szItems_toks body
   have hpk := allPacked_around o pre [] fc body [] [] H.wfRun rfl
   rw [List.append_nil] at hpk
-  refine elems_class_doc H _ CIF_EOF_IN_FRAME (szItems body + body.length + 3)
-    (by simp only [List.length_cons]; omega) hpk ?_
+  refine elems_class_doc_at H _ CIF_EOF_IN_FRAME (szItems body + body.length + 3) _
+    (by simp only [List.length_cons]; omega) (by simp only [List.length_cons]; omega) hpk ?_
   intro s1 w1 f hw1 hf hF1
-  have := C12_eof_in_frame o _ bc H.fresh' H.mfd pre fc body [] [] [] [] s1 f w1 [] [] hw1 H.wfRun (nil_seen o)
+  obtain ⟨s2, r, h1, h2, h3, h4, _⟩ := C12_eof_in_frame_at o _ bc H.fresh' H.mfd pre fc body [] [] [] [] s1 f w1 [] [] hw1 H.wfRun (nil_seen o)
     (by intro c hc; cases hc) hcode hnew hwb (by simp only [szElems] at hf; omega) (by simpa [elemsToks, blocksToks] using hF1)
-  simpa [blocksToks] using this
+  exact ⟨s2, r, by simpa using h1, h2, by simpa [blocksToks] using h3, h4⟩
 
 /-- **C12_chars_no_frame_term** — a data block header inside a save frame (the last construct of its block).  One report,
     CIF_NO_FRAME_TERM; the content is that of the document with the frame terminated in front of the header. -/
@@ -893,17 +954,18 @@ theorem C12_chars_no_frame_term (o : Opts) (cs : List Chunk) (preB postB : List 
     (fc : Str) (body : List Item) (H : ElemHost o cs preB (b :: postB) bc pre [] ((.frameHead, fc) :: itemsToks body))
     (hcode : wfCode fc = true) (hnew : ∀ c ∈ (denoteElems o.dia o.normKey pre [] []).1, codeIs o.norm (o.norm fc) c = false)
     (hwb : wfItems o body [] = true) :
-    OneReport o cs CIF_NO_FRAME_TERM (preB ++ [{ code := bc, body := pre ++ [.frame fc (body.map Elem.plain)] }] ++ b :: postB) := by
+    OneReportAt o cs CIF_NO_FRAME_TERM (preB ++ [{ code := bc, body := pre ++ [.frame fc (body.map Elem.plain)] }] ++ b :: postB)
+      ((blocksToks preB).length + 1 + ((elemsToks pre).length + (1 + (itemsToks body).length))) := by
   have h4 := Lemmas.WriterChunks.szItems_toks body
   have hpk := allPacked_around o pre [] fc body [] [] H.wfRun rfl
   rw [List.append_nil] at hpk
-  refine elems_class_doc H _ CIF_NO_FRAME_TERM (szItems body + body.length + 3)
-    (by simp only [List.length_cons]; omega) hpk ?_
+  refine elems_class_doc_at H _ CIF_NO_FRAME_TERM (szItems body + body.length + 3) _
+    (by simp only [List.length_cons]; omega) (by simp only [List.length_cons]; omega) hpk ?_
   intro s1 w1 f hw1 hf hF1
-  have := C12_no_frame_term o _ bc H.fresh' H.mfd pre fc body [] [] b.code (elemsToks b.body ++ (blocksToks postB ++ [(.end_, [])]))
+  obtain ⟨s2, r, h1, h2, h3, h4, _⟩ := C12_no_frame_term_at o _ bc H.fresh' H.mfd pre fc body [] [] b.code (elemsToks b.body ++ (blocksToks postB ++ [(.end_, [])]))
     s1 f w1 [] [] hw1 H.wfRun (nil_seen o)
     (by intro c hc; cases hc) hcode hnew hwb (by simp only [szElems] at hf; omega) (by simpa [elemsToks, blocksToks] using hF1)
-  simpa [blocksToks] using this
+  exact ⟨s2, r, by simpa using h1, h2, by simpa [blocksToks] using h3, h4⟩
 
 /-- **C12_chars_frame_nesting_depth** — a frame header inside a save frame while frames do not nest (`max_frame_depth = 1`).  One
     report, CIF_NO_FRAME_TERM; the content is that of the document with the first frame terminated in front of the second, which
@@ -915,17 +977,18 @@ theorem C12_chars_frame_nesting_depth (o : Opts) (cs : List Chunk) (preB postB :
     (hwb : wfItems o body [] = true) (hpost : wfElems o (.frame fc2 (body2.map Elem.plain) :: post) seen2 fseen2 = true)
     (hseen2 : ∀ k ∈ normNames o (denoteElems o.dia o.normKey (pre ++ [.frame fc (body.map Elem.plain)]) [] []).2, k ∈ seen2)
     (hfseen2 : ∀ c ∈ (denoteElems o.dia o.normKey (pre ++ [.frame fc (body.map Elem.plain)]) [] []).1, o.norm c.code ∈ fseen2) :
-    OneReport o cs CIF_NO_FRAME_TERM
-      (preB ++ [{ code := bc, body := pre ++ [.frame fc (body.map Elem.plain)] ++ .frame fc2 (body2.map Elem.plain) :: post }] ++ postB) := by
+    OneReportAt o cs CIF_NO_FRAME_TERM
+      (preB ++ [{ code := bc, body := pre ++ [.frame fc (body.map Elem.plain)] ++ .frame fc2 (body2.map Elem.plain) :: post }] ++ postB)
+      ((blocksToks preB).length + 1 + ((elemsToks pre).length + (1 + (itemsToks body).length))) := by
   have h4 := Lemmas.WriterChunks.szItems_toks body
-  refine elems_class_doc H _ CIF_NO_FRAME_TERM (szItems body + body.length + 3)
-    (by simp only [List.length_cons]; omega)
+  refine elems_class_doc_at H _ CIF_NO_FRAME_TERM (szItems body + body.length + 3) _
+    (by simp only [List.length_cons]; omega) (by simp only [List.length_cons]; omega)
     (allPacked_around o pre _ fc body seen2 fseen2 H.wfRun hpost) ?_
   intro s1 w1 f hw1 hf hF1
-  have := C12_frame_nesting_depth o _ bc H.fresh' hmfd pre post fc fc2 body body2 [] [] seen2 fseen2 _ s1 f w1 [] [] hw1 H.wfRun
+  obtain ⟨s2, r, h1, h2, h3, h4, _⟩ := C12_frame_nesting_depth_at o _ bc H.fresh' hmfd pre post fc fc2 body body2 [] [] seen2 fseen2 _ s1 f w1 [] [] hw1 H.wfRun
     (nil_seen o) (by intro c hc; cases hc) hcode hnew hwb hpost hseen2 hfseen2 (by omega)
     (blockFollow_term (blocks_rest_head postB)) hF1
-  simpa using this
+  exact ⟨s2, r, by simpa using h1, h2, h3, h4⟩
 
 
 /-- **C12_chars_dup_framecode** — a save frame header whose normalised code an earlier frame of the block has (any spelling), with
@@ -949,16 +1012,23 @@ theorem C12_chars_dup_framecode (o : Opts) (cs : List Chunk) (preB postB : List 
                         (denoteElems o.dia o.normKey pre [] []).2).1
                      (denoteElems o.dia o.normKey post (fa ++ .mk fc0 ffs (denoteItems o.dia o.normKey body fls) :: fb)
                         (denoteElems o.dia o.normKey pre [] []).2).2 :: denote o.dia o.normKey postB }
-      ∧ r.code = CIF_DUP_FRAMECODE := by
+      ∧ r.code = CIF_DUP_FRAMECODE
+      ∧ (r.line = endLine cs ((blocksToks preB).length + 1 + ((elemsToks pre).length + 0))
+          ∨ r.line = endLine cs ((blocksToks preB).length + 1 + ((elemsToks pre).length + 0) + 1)) := by
   have h4 := Lemmas.WriterChunks.szItems_toks body
-  obtain ⟨r, h, hr, _⟩ := elems_class H _ _ CIF_DUP_FRAMECODE (szItems body + body.length + 3) (fun _ _ => True)
+  obtain ⟨r, h, hr, hat⟩ := elems_class H _ _ CIF_DUP_FRAMECODE (szItems body + body.length + 3)
+    (fun s1 r => RepAt o s1 ((elemsToks pre).length + 0) r)
     (by simp only [List.length_cons, List.length_append, List.length_nil]; omega)
     (fun s1 w1 f hw1 hf hF1 => by
-      obtain ⟨s2, r, h1, h2, h3⟩ := C12_dup_framecode o _ bc H.fresh' H.mfd pre post fc fc0 body [] [] seen2 fseen2 bseen _ s1 f w1 [] fa fb ffs [] fls hw1 H.wfRun
+      obtain ⟨s2, r, h1, h2, h3, h4, _⟩ := C12_dup_framecode_at o _ bc H.fresh' H.mfd pre post fc fc0 body [] [] seen2 fseen2 bseen _ s1 f w1 [] fa fb ffs [] fls hw1 H.wfRun
         (nil_seen o) (by intro c hc; cases hc) hcode hk hsplit ha hb hwb hbseen hpk hpost hseen2 hfseen2 (by omega)
         (blockFollow_term (blocks_rest_head postB)) hF1
-      exact ⟨s2, r, h1, h2, h3, trivial⟩)
-  refine ⟨r, ?_, hr⟩
+      exact ⟨s2, r, h1, h2, h3, h4⟩)
+  have hline := line_of_block H.toTextOk (by
+    rw [H.hToks]
+    simp only [List.length_append, List.length_cons]
+    omega) hat
+  refine ⟨r, ?_, hr, hline⟩
   rw [h, pruneC_packed]
   exact allPacked_denoteElems o post seen2 fseen2 _ _ hpost
     (allPacked_denoteElems o pre [] [] [] [] H.wfRun (by intro l hl; cases hl))
